@@ -31,8 +31,66 @@ def compJson (g : GComp) : Json :=
     ("nsName", jOptStr g.nsName), ("nsType", jOptStr g.nsType), ("nsId", jOptStr g.nsId),
     ("ifaces", Json.arr (g.ifaces.map ifaceJson).toArray)]
 
+def sizeJson (s : Size) : Json :=
+  Json.arr #[Json.num (JsonNumber.fromNat s.core), Json.num (JsonNumber.fromNat s.ram), Json.num (JsonNumber.fromNat s.disk)]
+
+def parseCOp (j : Json) : Option COp :=
+  match j with
+  | .arr #[.str "get", h, .str n, _] => (h.getNat?.toOption).map (COp.get · n)
+  | .arr #[.str "fresh", h, c, r, d] =>
+    match h.getNat?.toOption, c.getNat?.toOption, r.getNat?.toOption, d.getNat?.toOption with
+    | some h, some c, some r, some d => some (.fresh h ⟨c, r, d⟩)
+    | _, _, _, _ => none
+  | .arr #[.str "aug", .str op, h, h2] =>
+    match h.getNat?.toOption, h2.getNat?.toOption with
+    | some h, some h2 => if op == "iadd" then some (.aug true h h2) else if op == "isub" then some (.aug false h h2) else none
+    | _, _ => none
+  | .arr #[.str "bin", .str op, h3, h, h2] =>
+    match h3.getNat?.toOption, h.getNat?.toOption, h2.getNat?.toOption with
+    | some h3, some h, some h2 => some (.bin op h3 h h2)
+    | _, _, _ => none
+  | .arr #[.str "use", .str op, h, h2] =>
+    match h.getNat?.toOption, h2.getNat?.toOption with
+    | some h, some h2 => some (.use op h h2)
+    | _, _ => none
+  | .arr #[.str "scribble", h] => (h.getNat?.toOption).map COp.scribble
+  | .arr #[.str "query", .str n] => some (.query n)
+  | .arr #[.str "pick", c, r, d] =>
+    match c.getNat?.toOption, r.getNat?.toOption, d.getNat?.toOption with
+    | some c, some r, some d => some (.pick ⟨c, r, d⟩)
+    | _, _, _ => none
+  | .arr #[.str "pickh", h] => (h.getNat?.toOption).map COp.pickh
+  | _ => none
+
+def coutJson : COut → Json
+  | .caps (some s) => ok (sizeJson s)
+  | .caps none => ok Json.null
+  | .name n => ok (jOptStr n)
+
+def genReply (r : Except GErr GComp) : Json :=
+  match r with
+  | .ok g => ok (compJson g)
+  | .error .notFound => err "catalog"
+  | .error .runtime => err "runtime"
+  | .error .type => err "type"
+  | .error .index => err "index"
+
 def handle (j : Json) : Json :=
   match j with
+  | .arr #[.str "capsess", _, .arr ops] =>
+    match ops.toList.mapM parseCOp with
+    | some ops =>
+      let (st, outs) := crun ⟨instanceCatalog, []⟩ ops
+      ok (Json.mkObj [("out", Json.arr (outs.map coutJson).toArray),
+        ("damaged", if st.cat == instanceCatalog then Json.null else Json.str "catalogue-changed")])
+    | none => err "bad-args"
+  | .arr #[.str "genm", .str name, .str member, _, nsId, ids, labels, parent] =>
+    match parseOptList ids optStr, parseOptList labels parseBdf with
+    | some ids, some labels =>
+      match generateM componentCatalog name member (optStr nsId) ids labels (optStr parent) with
+      | some r => genReply r
+      | none => err "bad-member"
+    | _, _ => err "bad-args"
   | .arr #[.str "pick", c, r, d] =>
     match c.getNat?.toOption, r.getNat?.toOption, d.getNat?.toOption with
     | some c, some r, some d => ok (jOptStr (pick instanceCatalog ⟨c, r, d⟩))
